@@ -10,7 +10,15 @@ PROFILES = [('expiry', 0.6), ('core', 0.2), ('aof', 0.2)]
 MONITORS = ['C06', 'PANIC']
 
 
+def realtime(ctx, run):
+    """millisecond wheels run on the wall clock and are not modelled: checked on the implementation in real time"""
+    from tools import engine_rt
+    res, txt = engine_rt.run(run.impl, which=("C06",))
+    ctx.notes.append("real-time millisecond scenario: %d reply lines" % txt.count("rt reply"))
+    return res
+
+
 def run(ctx):
     if getattr(ctx, "replay", None):
         return _engine.replay(ctx, 'C06', MONITORS)
-    return _engine.run_engine_check(ctx, 'C06', PROFILES, MONITORS, n_quick=450, n_thorough=18000)
+    return _engine.run_engine_check(ctx, 'C06', PROFILES, MONITORS, n_quick=450, n_thorough=18000, impl_only=realtime)
